@@ -16,6 +16,7 @@ pub mod schemaread;
 pub mod abi;
 pub mod collections;
 pub mod ledger;
+pub mod schemapairs;
 
 #[macro_use]
 mod reg;
@@ -29,4 +30,17 @@ pub fn registry() -> Vec<(&'static str, fn(&mut crate::src::ReplaySrc))> {
     v.extend(registry_family());
     v.extend(registry_misc());
     v
+}
+
+/// Native-only bounded harnesses (small-scope enumeration; CBMC cannot handle the heap-heavy schema code).
+/// name, body, properties, functions, bound  -- parsed by tools/native_run.py from the `n(` lines below.
+pub fn native_registry() -> Vec<(&'static str, fn(&mut crate::src::EnumSrc))> {
+    vec![
+        // n(pairs_diff, "C05,C13,C15", "diff_schema; diff_enum; diff_fields; diff_primitive", "pairs of one-variant enums with <= 2 primitive fields; discriminants/widths from small domains");
+        ("pairs_diff", (|s: &mut crate::src::EnumSrc| crate::schemapairs::diff_pairs(s)) as fn(&mut crate::src::EnumSrc)),
+        // n(pairs_layout, "C11", "Schema::layout_compatible; SchemaEnum/Variant/Field::layout_compatible", "pairs of one-variant enums with <= 2 primitive fields, two offsets");
+        ("pairs_layout", (|s: &mut crate::src::EnumSrc| crate::schemapairs::layout_pairs(s)) as fn(&mut crate::src::EnumSrc)),
+        // n(ledger_compat, "C15", "AbiTraitDefinition::verify_backward_compatible; verify_compatible_with_old_impl; diff_schema", "one recorded method, <= 2 arguments of 3 primitive kinds, async flag, presence");
+        ("ledger_compat", (|s: &mut crate::src::EnumSrc| crate::ledger::ledger_compat(s)) as fn(&mut crate::src::EnumSrc)),
+    ]
 }
